@@ -63,9 +63,22 @@ pub(crate) fn decode_character_string(mut from: &[u8]) -> Result<Cow<'_, [u8]>, 
         }
         let len = from.len();
         from = &from[1..len - 1];
+
+        // Undo the escaping that `append_character_string` applies inside a quoted string.
+        if from.contains(&b'\\') {
+            let mut unescaped = Vec::with_capacity(from.len());
+            let mut bytes = from.iter();
+            while let Some(&chr) = bytes.next() {
+                if chr == b'\\' {
+                    unescaped.push(*bytes.next().ok_or(())?);
+                } else {
+                    unescaped.push(chr);
+                }
+            }
+            return Ok(Cow::Owned(unescaped));
+        }
     }
 
-    // TODO: remove the backslashes if any
     Ok(Cow::Borrowed(from))
 }
 
